@@ -143,32 +143,24 @@ theorem no_trace_after_failure (cfg : Config R) (st : State) (ss : List Stanza) 
 
 /-- Whatever the history, the state is locked or holds the declared key pair; and
     it holds it only if some call of the history was prompted for, and given, a
-    passphrase that opens the key file to the declared key pair. -/
+    passphrase that opens the key file to the declared key pair: the history
+    splits at a call `c` (the first that unlocks) such that the identity was still
+    LOCKED when `c` arrived, `c`'s stanzas end the scan in a match — so, by
+    `prompt_iff_match`, the callback was invoked in that very call, and the
+    output of `c` in the trace says so —, the answer the callback gave opens the
+    key file to the declared key pair, and the state right after `c` holds it. -/
 theorem only_validated_cached (cfg : Config R) (h : List Call) (k : KeyId)
     (hk : (run cfg fresh h).1.cached = some k) :
     k = cfg.declared ∧
-    ∃ c ∈ h, scanStanzas cfg c.1 = .matched ∧
-      ∃ p, c.2 = some p ∧ cfg.openFile p = some (.key cfg.declared) := by
-  suffices gen : ∀ (h : List Call) (st : State), (run cfg st h).1.cached = some k →
-      st.cached = some k ∨
-      (k = cfg.declared ∧ ∃ c ∈ h, scanStanzas cfg c.1 = .matched ∧
-        ∃ p, c.2 = some p ∧ cfg.openFile p = some (.key cfg.declared)) by
-    rcases gen h fresh hk with h0 | h1
-    · cases h0
-    · exact h1
-  intro h
-  induction h with
-  | nil => intro st hst; exact Or.inl hst
-  | cons c cs ih =>
-    intro st hst
-    simp only [run] at hst
-    rcases ih _ hst with h1 | ⟨hkd, c', hc', hrest⟩
-    · rcases step_state cfg st c.1 c.2 with h2 | ⟨_, hm, hp, h4, _, _⟩
-      · rw [h2] at h1; exact Or.inl h1
-      · rw [h4] at h1
-        simp only [Option.some.injEq] at h1
-        exact Or.inr ⟨h1.symm, c, by simp, hm, hp⟩
-    · exact Or.inr ⟨hkd, c', by simp [hc'], hrest⟩
+    ∃ h1 c h2, h = h1 ++ c :: h2 ∧ (run cfg fresh h1).1 = fresh ∧
+      scanStanzas cfg c.1 = .matched ∧
+      (∃ p, c.2 = some p ∧ cfg.openFile p = some (.key cfg.declared)) ∧
+      (∃ o, (run cfg fresh h).2[h1.length]? = some o ∧ o.prompted = true ∧
+        o.result = .delegated (cfg.innerUnwrap cfg.declared c.1)) ∧
+      (run cfg fresh (h1 ++ [c])).1 = ⟨some cfg.declared⟩ := by
+  rcases run_cached_source cfg k h fresh hk with h0 | ⟨hkd, _, hrest⟩
+  · cases h0
+  · exact ⟨hkd, hrest⟩
 
 /-- History independence. After ANY history `h` on a fresh identity, a call `c`
     * either runs in the locked state and does exactly — prompt, result, new
@@ -314,10 +306,18 @@ example : (step (toyCfg 2) fresh toDeclared (some [1])).1 = fresh :=
 theorem only_validated_cached_nonvacuous :
     (run (toyCfg 1) fresh [(toDeclared, some [2]), (toDeclared, some [1])]).1.cached = some 1 := by decide
 
-example : ∃ c ∈ [(toDeclared, some [2]), (toDeclared, some ([1] : Passphrase))],
-    scanStanzas (toyCfg 1) c.1 = .matched ∧
-      ∃ p, c.2 = some p ∧ (toyCfg 1).openFile p = some (.key (toyCfg 1).declared) :=
+example : ∃ h1 c h2, [(toDeclared, some [2]), (toDeclared, some ([1] : Passphrase))] = h1 ++ c :: h2 ∧
+    (run (toyCfg 1) fresh h1).1 = fresh ∧ scanStanzas (toyCfg 1) c.1 = .matched ∧
+    (∃ p, c.2 = some p ∧ (toyCfg 1).openFile p = some (.key (toyCfg 1).declared)) ∧
+    (∃ o, (run (toyCfg 1) fresh [(toDeclared, some [2]), (toDeclared, some [1])]).2[h1.length]? = some o ∧
+      o.prompted = true ∧ o.result = .delegated ((toyCfg 1).innerUnwrap (toyCfg 1).declared c.1)) ∧
+    (run (toyCfg 1) fresh (h1 ++ [c])).1 = ⟨some (toyCfg 1).declared⟩ :=
   (only_validated_cached (toyCfg 1) _ 1 only_validated_cached_nonvacuous).2
+/-- the split the theorem speaks of, at these values: still locked after the wrong
+    passphrase, unlocked by the second call, whose output says "prompted" -/
+example : (run (toyCfg 1) fresh [(toDeclared, some [2])]).1 = fresh ∧
+    outs (run (toyCfg 1) fresh [(toDeclared, some [2]), (toDeclared, some [1])]) =
+      (some 1, [(true, .errDecryptKey), (true, .delegated true)]) := by decide
 
 /-- both alternatives of `history_independent` (which has no hypotheses) occur -/
 example : (run (toyCfg 1) fresh [(toDeclared, some [2]), (toOther, none)]).1 = fresh ∧
